@@ -338,14 +338,6 @@ fn c07_j_sent_seq_n2_s2() {
 #[kani::unwind(10)]
 #[kani::stub(std::sync::Mutex::lock, stub_mutex_lock)]
 #[kani::stub(tokio::time::Instant::now, stub_now)]
-fn c07_j_sent_seq_n3_s2() {
-    seq_steps::<3, 2, 2>();
-}
-
-#[kani::proof]
-#[kani::unwind(10)]
-#[kani::stub(std::sync::Mutex::lock, stub_mutex_lock)]
-#[kani::stub(tokio::time::Instant::now, stub_now)]
 fn c07_j_sent_seq_n1_s3() {
     seq_steps::<1, 3, 1>();
 }
